@@ -25,6 +25,12 @@ def scenario(exe, r):
     w = world.World(exe, seed=r.getrandbits(30))
     sim = world.Sim(w, latency=0)
     sim.add_node(0)
+    # one datagram write of the run fails (ENOBUFS): a Confirmable is still owed its
+    # retransmissions and its outcome, a held one its turn
+    failsend = r.choice([1, 2, 3, 4, 6, 9]) if r.random() < 0.25 else 0
+    if failsend:
+        sim.cmd("failsend %d" % failsend)
+        sim.log.append({"e": "failsend_armed", "t": sim.now, "k": failsend})
     for s in range(nsess):
         sim.cmd("sess 0 %d udp %s nstart=%d max_retransmit=%d" % (s, PEER % (s + 1), nstart, mr))
     msgs = []
@@ -61,9 +67,14 @@ def scenario(exe, r):
 
     for s in range(nsess):
         sim.peers[PEER % (s + 1)] = peer
+    def submit(sm, m):
+        evs = sm.cmd("send 0 %d type=%d code=1 token=%s opts=11=61" % (m["sid"], m["type"],
+                                                                     m["tok"].hex()))
+        if any(e["e"] == "sent" and e.get("mid", 0) == -1 for e in evs):
+            m["refused"] = True      # coap_send() told the application: not accepted
+
     for m in msgs:
-        sim.call_at(sim.now + m["t"], lambda sm, m=m: sm.cmd(
-            "send 0 %d type=%d code=1 token=%s opts=11=61" % (m["sid"], m["type"], m["tok"].hex())))
+        sim.call_at(sim.now + m["t"], lambda sm, m=m: submit(sm, m))
     failed = {}
     if fail_at:
         fs = r.randrange(nsess)
@@ -92,7 +103,7 @@ def scenario(exe, r):
             sm.cmd("deliver %s %s - icmp=1" % (PEER % (isid + 1), local))
         sim.call_at(sim.now + icmp, do_icmp)
     sim.run(horizon=900000)
-    sig = (nstart, nsess, nmsg, mr, stagger, fail_at, icmp is not None,
+    sig = (nstart, nsess, nmsg, mr, stagger, fail_at, icmp is not None, failsend,
            tuple(sorted(set((m["type"], m["pack"], m["rst"], m["delay"]) for m in msgs)))[:6])
     return w, sim, msgs, nstart, failed, sig
 
@@ -120,17 +131,21 @@ def judge(run, sim, msgs, nstart, failed, witness, stats):
             inflight[ev["sid"]] = {}
         elif k == "sending":
             pass
-        elif k == "wire":
+        elif k in ("wire", "wirefail"):
+            # a write the socket refused is a transmission the library made and the network
+            # lost: the message has left the delay queue and occupies its NSTART slot
             b = bytes.fromhex(ev["b"])
             typ, code, mid = hdr(b)
             if code == 0:
                 continue
+            if k == "wirefail":
+                stats["failed_writes"] = stats.get("failed_writes", 0) + 1
             try:
                 tok = cw.decode(b, "udp")["token"]
             except Exception:
                 continue
             m = by_tok.get(tok)
-            if not m:
+            if not m or m.get("refused"):
                 continue
             sid = m["sid"]
             mid_of.setdefault(tok, set()).add(mid)
@@ -203,6 +218,9 @@ def judge(run, sim, msgs, nstart, failed, witness, stats):
     for m in msgs:
         tok = m["tok"]
         w = dict(witness, token=tok.hex())
+        if m.get("refused"):
+            stats["refused_by_api"] = stats.get("refused_by_api", 0) + 1
+            continue
         if m["type"] == 1:
             stats["non"] += 1
             if tok not in first_tx and not (m["sid"] in fail_time and
